@@ -39,12 +39,14 @@ FQN: ID('.'ID)*;
 class Text:
     """assembles an input text and remembers where the references are"""
 
-    def __init__(self):
+    def __init__(self, eol='\n'):
         self.parts = []
         self.refs = []      # (start, end, text, target name)
         self.n = 0
+        self.eol = eol
 
     def add(self, s):
+        s = s.replace('\n', self.eol)
         self.parts.append(s)
         self.n += len(s)
         return self
@@ -57,8 +59,8 @@ class Text:
         return ''.join(self.parts)
 
 
-def case_single():
-    t = Text()
+def case_single(eol='\n'):
+    t = Text(eol)
     t.add('package pp {\n  class c;\n  class d uses ').ref('pp.c', 'c').add(', ').ref('c', 'c').add(' base ')
     t.ref('c', 'c').add(';\n  w k;\n  package q { class e uses ').ref('d', 'd').add(',').ref('pp.c', 'c')
     t.add('; w m; }\n}')
@@ -95,6 +97,9 @@ def case_two_metamodels():
 
 
 CASES = {'single': case_single, 'two-files': case_two_files, 'same-text': case_same_text,
+         # the model is given as a string (with a file name), lines end in CR LF: positions are offsets into
+         # the text the caller handed over
+         'single-crlf-string': lambda: case_single('\r\n'),
          # editor support switched on for one of the two metamodels only
          'two-metamodels-lib-tools': case_two_metamodels, 'two-metamodels-main-tools': case_two_metamodels}
 
@@ -148,7 +153,10 @@ def run(c, case, max_attempts):
     problems = []
     try:
         try:
-            model = mm.model_from_file(os.path.join(tmpd, 'main'))
+            if case.endswith('-string'):
+                model = mm.model_from_str(texts['main'].text(), file_name=os.path.join(tmpd, 'main'))
+            else:
+                model = mm.model_from_file(os.path.join(tmpd, 'main'))
         except TextXError as e:
             return ('fail', str(e)[:80], sched)
         except Exception as e:  # noqa
